@@ -105,6 +105,11 @@ def judge_stab(case):
     _tags(j, case, t, Lab)
     plt.close("all")
     fl = None if case["freqlim"] is None else tuple(case["freqlim"])
+    if case["table"]["seed"] % 2 == 0:
+        other = Fn * 1.37 + 0.11
+        sut(plot.stab_plot, other, np.ones_like(Lab), 1, Fn.shape[1] - 1, ordmin=0, freqlim=None, hide_poles=False)
+        sut(plot.cluster_plot, other, t["Xi"] * 0.5, np.ones_like(Lab), ordmin=0, freqlim=None, hide_poles=False)
+        j.tag("earlier_figure_open")
     if case["which"] == "function":
         out = sut(plot.stab_plot, Fn.copy(), Lab.copy(), 1, Fn.shape[1] - 1, ordmin=case["ordmin"], freqlim=fl, hide_poles=case["hide"], Fn_cov=None if t["Fn_cov"] is None else t["Fn_cov"].copy())
     else:
@@ -140,6 +145,12 @@ def judge_cluster(case):
     _tags(j, case, t, Lab)
     plt.close("all")
     fl = None if case["freqlim"] is None else tuple(case["freqlim"])
+    if case["table"]["seed"] % 2 == 0:
+        # an earlier diagram of another table is still open: it must not leak into this one
+        other = Fn * 1.37 + 0.11
+        sut(plot.cluster_plot, other, Xi * 0.5, np.ones_like(Lab), ordmin=0, freqlim=None, hide_poles=False)
+        sut(plot.stab_plot, other, np.ones_like(Lab), 1, Fn.shape[1] - 1, ordmin=0, freqlim=None, hide_poles=False)
+        j.tag("earlier_figure_open")
     if case["which"] == "function":
         out = sut(plot.cluster_plot, Fn.copy(), Xi.copy(), Lab.copy(), ordmin=case["ordmin"], freqlim=fl, hide_poles=case["hide"])
     else:
@@ -168,7 +179,7 @@ def judge_cluster(case):
 def cmif_case(draw):
     n = draw(st.integers(2, 6))
     return {"n": n, "nf": draw(st.integers(8, 300)), "nSv": draw(st.one_of(st.just("all"), st.integers(1, n - 1))), "fs": draw(st.sampled_from([1.0, 100.0, 37.0])),
-            "seed": draw(st.integers(0, 2**32 - 1)), "freqlim": draw(st.one_of(st.none(), st.just([0.1, 0.4]))), "via_class": draw(st.booleans())}
+            "seed": draw(st.integers(0, 2**32 - 1)), "freqlim": draw(st.one_of(st.none(), st.sampled_from([[0.1, 0.4], [0.25, 0.45], [0.0, 0.1], [0.3, 0.5]]))), "via_class": draw(st.booleans())}
 
 
 def judge_cmif(case):
